@@ -70,6 +70,7 @@ func catalogue(r *vh.Run, rng *vh.RNG) []job {
 	jobs = append(jobs, launderJobs(w)...)
 	jobs = append(jobs, poisonJobs(w)...)
 	jobs = append(jobs, strikesJobs(w)...)
+	jobs = append(jobs, redeliveryJobs(w)...)
 	jobs = append(jobs, relayJobs(w)...)
 	jobs = append(jobs, mixedJobs(w, wl, rng)...)
 	// a second network in both tiers: v2 allowed at 3, required at 5
